@@ -391,6 +391,48 @@ def run(res, tier):
            message='ReschedulePulseChild takes a child out of its list without repairing %s from the child\'s sibling pointer: when the child was at that end the list keeps pointing at a node that is no '
                    'longer in it — the next insertion there links behind the departed node and becomes unreachable, so it is never asked or pulsed'
                    % ' and '.join(k for k, v in ends.items() if not v))
+    # ---------------------------------------------------------------------------------- round 5: DETACH-FIRST, REQUEST-VERBATIM
+    res.rule('DETACH-FIRST', 'a PulseNode function that points another node\'s _parent at a node first lets the old parent detach it (RemovePulseChild tests `child->_parent == this`, so it '
+                             'does nothing once _parent was overwritten), the null-old-parent edge excepted', floor=1)
+    n5 = 0
+    for f in sorted(pf, key=lambda f: f.line):
+        if f.q.split('::')[-1] in ('(ctor)', '(dtor)', 'RemovePulseChild'):
+            continue
+        for (w, base) in writes_of(f, ('_parent',)):
+            if A.is_this_member(base):
+                continue
+            rhs = A.strip_casts(w['ch'][1])
+            if rhs.get('v') == 0 or rhs['k'] in ('GNUNullExpr', 'CXXNullPtrLiteralExpr'):
+                continue
+            n5 += 1
+            det = P.calls(f, r'::RemovePulseChild$')
+            ok = bool(det) and P.must_precede(f, det, w, escapes=P.escape_edges(f, status=False, null=True))
+            res.ob('DETACH-FIRST', f.where(w), '%s: the old parent detaches the child before its _parent is overwritten' % f.q.split('::')[-1], ok, function=f.q, key='DETACH-FIRST|%s' % f.q,
+                   message='%s overwrites the child\'s _parent before the old parent\'s RemovePulseChild() ran (or without it): RemovePulseChild() tests `child->_parent == this` and now does nothing, '
+                           'so the old parent keeps list-head pointers to a node that lives in another parent\'s lists — its PulseAux loop re-reads that foreign node forever, and its other children '
+                           'never fire' % f.q)
+    if n5 < 1:
+        raise AnalysisBroken('DETACH-FIRST: no re-parenting write found in PulseNode')
+    res.rule('REQUEST-VERBATIM', '_myScheduledTime holds what GetPulseTime() asked for: every value assigned to it contains the GetPulseTime() call or is a constant, never the sweep time', floor=1)
+    n5 = 0
+    for f in sorted(pf, key=lambda f: f.line):
+        if f.q.split('::')[-1] in ('(ctor)',):
+            continue
+        pds = set(p_['d'] for p_ in f.params if p_.get('d') is not None)
+        for (w, base) in writes_of(f, ('_myScheduledTime',)):
+            if not A.is_this_member(base):
+                continue
+            n5 += 1
+            rhs = list(A.walk_through_locals(f, w['ch'][1]))
+            asks = any(x.is_call() and (x.get('q') or '').endswith('::GetPulseTime') for x in rhs)
+            from_param = any(x['k'] == 'DeclRefExpr' and x.get('d') in pds for x in rhs)
+            ok = asks or not from_param
+            res.ob('REQUEST-VERBATIM', f.where(w), '%s stores the requested time unmodified' % f.q.split('::')[-1], ok, function=f.q, key='REQUEST-VERBATIM|%s|%d' % (f.q, n5),
+                   message='%s assigns _myScheduledTime from its own parameter instead of from GetPulseTime(): the node is pulsed, but Pulse() is told a scheduled time the node never asked for '
+                           '(GetScheduledTime() and the previous-time argument of the next GetPulseTime() are wrong), so a periodic timer computed as scheduled + period drifts off its grid and '
+                           'skips the catch-up pulses it is documented to get' % f.q)
+    if n5 < 1:
+        raise AnalysisBroken('REQUEST-VERBATIM: no assignment to _myScheduledTime found')
     res.explanation = ('Static decision of the scheduler\'s structural invariants on util/PulseNode.cpp: the virtual Pulse() is dispatched only under (valid AND now >= scheduled time) with the scheduled time as '
                        'argument; children are descended only while due; a pulsed node is invalidated and every invalidation asks the parent for a recalculation; the aggregate time has one writer and is the '
                        'min of own and earliest child; the list links have one writer. The schedule over histories and re-entrancy from callbacks are not decided.')
